@@ -201,6 +201,13 @@ def check_registries(ctx: Ctx) -> None:
             if not eff:
                 continue
             m += 1
+            # ... and it is filed under its own id and its own name
+            idattr = f"{obj}_id"
+            sts = [e for e in p.walk_events() if e.kind == "store" and e.attr is None]
+            want_id = any(key(strip_ver(e.base)) == f"self.id2{obj}" and key(strip_ver(e.index)) == f"{obj}.{idattr}" and key(strip_ver(e.value)) == obj for e in sts)
+            want_nm = any(key(strip_ver(e.base)) == f"self.name2{obj}" and key(strip_ver(e.index)) == f"{obj}.name" and key(strip_ver(e.value)) == obj for e in sts)
+            ctx.check(want_id and want_nm, f, f.node, f"{q}: the object is filed under its own id and its own name", f"self.id2{obj}[{obj}.{idattr}] = {obj}; self.name2{obj}[{obj}.name] = {obj}",
+                      "; ".join(f"{short(e.base)}[{short(e.index)}] = {short(e.value)}" for e in sts)[:200] or "no keyed store")
             got = {key(strip_ver(c)): pol for c, pol, _ in p.conds}
             missing = [t for t in tests if got.get(t) is not False]
             if missing:
@@ -441,6 +448,14 @@ def r5(ctx: Ctx) -> None:
 
 @rule("C18.R6", "class names resolve over pams' namespaces plus the registered classes, and anything but exactly one match is an error", "T4", floor=2)
 def r6(ctx: Ctx) -> None:
+    # registered user classes are only ever added: a later registration never removes or replaces an earlier one
+    # (two classes of one name must stay two candidates, so that the name is reported as ambiguous)
+    nw = 0
+    for w in ctx.cg.writers_of("Runner", "registered_classes"):
+        nw += 1
+        ok = (w.func.name == "__init__" and w.kind == "store") or (w.func.name == "class_register" and w.kind == "mutcall" and w.detail == "append")
+        ctx.check(ok, w.func, w.node, "registered classes are only added (class_register appends)", "Runner.__init__ creates the list; class_register appends", f"{w.func.qualname}: {w.kind} {w.detail}")
+    ctx.require(nw >= 2, "writers of Runner.registered_classes not found")
     f = ctx.func(FC)
     n = 0
     for p in ctx.paths(FC):
